@@ -31,6 +31,9 @@ type Program struct {
 
 	idx     *indexes
 	listing *PanicListing
+	// Overlay holds the helper-inlined form of rewritten files (nil: the tree is analysed as it is)
+	Overlay map[string][]byte
+	NormLog []string
 }
 
 func loadEnv(arch string) []string {
@@ -58,11 +61,17 @@ func loadEnv(arch string) []string {
 // LoadProgram loads ./... below repoDir.  Any type error, a missing package or
 // a package count below the floor is an error (the caller exits 2).
 func LoadProgram(repoDir, arch string) (*Program, error) {
+	var overlay map[string][]byte
+	var normLog []string
+	if os.Getenv("KX_NONORM") == "" {
+		overlay, normLog = normalizeRepo(repoDir, arch)
+	}
 	cfg := &packages.Config{
-		Mode:  packages.LoadAllSyntax,
-		Dir:   repoDir,
-		Env:   loadEnv(arch),
-		Tests: false,
+		Mode:    packages.LoadAllSyntax,
+		Dir:     repoDir,
+		Env:     loadEnv(arch),
+		Tests:   false,
+		Overlay: overlay,
 	}
 	pkgs, err := packages.Load(cfg, "./...")
 	if err != nil {
@@ -81,7 +90,7 @@ func LoadProgram(repoDir, arch string) (*Program, error) {
 		}
 		return nil, fmt.Errorf("type-check errors in %s:\n  %s", repoDir, strings.Join(errs, "\n  "))
 	}
-	p := &Program{RepoDir: repoDir, Arch: arch, ByPath: map[string]*packages.Package{}, SSAPkg: map[string]*ssa.Package{}}
+	p := &Program{RepoDir: repoDir, Arch: arch, ByPath: map[string]*packages.Package{}, SSAPkg: map[string]*ssa.Package{}, Overlay: overlay, NormLog: normLog}
 	for _, pk := range pkgs {
 		if pk.PkgPath == modPath || strings.HasPrefix(pk.PkgPath, modPath+"/") {
 			p.Pkgs = append(p.Pkgs, pk)
